@@ -123,7 +123,7 @@ Lemma transfer_shape c oack blocks evs : wrap c <> Some 65535%N ->
   | _ => exists r, client_pkts (transfer c oack blocks evs) = POack oack :: r
   end.
 Proof.
-  intros Hw. unfold transfer. destruct oack as [|o1 oack'].
+  intros Hw. unfold transfer, transfer_r. destruct oack as [|o1 oack'].
   - destruct (send_blocks_data c Hw blocks 0%N 0%Z evs None (or_introl eq_refl)) as [j [Hj Hd]].
     destruct (send_blocks c 0%N blocks 0%Z evs) as [[[r n] e] l]. cbn [snd] in *.
     rewrite cp_app. split.
@@ -137,7 +137,7 @@ Proof.
     assert (Hno : Forall no_data (repeat (POack oa) k)).
     { apply Forall_forall. intros x Hx. apply repeat_spec in Hx. subst x. exact Logic.I. }
     destruct k as [|k]; [exfalso; apply Hk0; congruence|].
-    destruct o.
+    destruct o; cbn [snd].
     + destruct (send_blocks_data c Hw blocks 0%N n1 e1 None (or_introl eq_refl)) as [j [Hj Hd]].
       destruct (send_blocks c 0%N blocks n1 e1) as [[[r n2] e2] l2]. cbn [snd] in *.
       rewrite (cp_app (l1 ++ l2)), (cp_app l1), Hk. split.
